@@ -526,6 +526,15 @@ class Evaluator:
                 return run_function(kf.fdef, ([kf.bound] if kf.bound is not None else []) + [x], env=kf.scope, budget=max(0, self.budget), call_hook=self.call_hook)
             kwargs = dict(kwargs, key=keyfn)
         if d in PURE_FUNCS:
+            if d.split('.')[-1] in ('defaultdict', 'reduce') and any(isinstance(a, ast.Lambda) for a in args):
+                def mk(lam):
+                    def call(*xs):
+                        env2 = dict(env)
+                        for p_, x_ in zip(lam.args.args, xs):
+                            env2[p_.arg] = x_
+                        return self.ev(lam.body, env2)
+                    return call
+                args = [mk(a) if isinstance(a, ast.Lambda) else a for a in args]
             try:
                 r = PURE_FUNCS[d](*args, **kwargs)
                 if isinstance(r, (range, zip, enumerate, reversed, itertools.product, itertools.combinations, itertools.permutations, itertools.chain, itertools.combinations_with_replacement)):
